@@ -32,6 +32,8 @@ def gen_cases(rng, n):
     cases = opt_templates() + [(t, p, s) for t, p, s in G.templates(rng)] + G.boundary_programs()
     for _ in range(max(20, n // 3)):
         cases.append(("scripted", S.scripted(rng), G.gen_stdin(rng)))
+    for _ in range(max(12, n // 10)):
+        cases.append(("bigarith", S.bigarith(rng), ""))
     for _ in range(n):
         cmds = G.gen_program(rng)
         cases.append(("random", G.render(cmds), G.gen_stdin(rng)))
@@ -92,11 +94,11 @@ def run(prop, tier, seed):
         ls = ["opt state %d %s" % (lv, G.cps(p)) for _, p, _ in cases]
         st0[lv] = C.run_impl(ls)
         st1[lv] = C.run_model(ls)
-    m = {lv: C.run_model(["opt run %d 20000 %s %s" % (lv, G.cps(p), G.cps(s)) for _, p, s in cases]) for lv in (1, 2)}
+    m = {lv: C.run_model(["opt run %d %d %s %s" % (lv, 4000 if quick else 20000, G.cps(p), G.cps(s)) for _, p, s in cases]) for lv in (1, 2)}
     distinct = set()
     propfail, corr = [], []
     for k, (tag, prog, stdin) in enumerate(cases):
-        hist[tag if tag in ("random", "scripted") else "template"] += 1
+        hist[tag if tag in ("random", "scripted", "bigarith") else "template"] += 1
         if r0[k][0] == "timeout":
             hist["nonterminating"] += 1
         if "log=0|" not in st0[2][k] and st0[2][k].startswith("ok"):
